@@ -10,7 +10,7 @@ CASE_TYPE = "ecase"
 CHECK_FN = 'check_cases "C01"'
 MISMATCH_IS_VIOLATION = False
 RULE = ec.ENG_RULE + "non-trivial = the main answer is non-empty; distinct = distinct (database, query, options)"
-TRUSTED = ["oracles fed to the model from the real code for each case: bm25IDF values (math.Log), the NLP analysis of the query and per-document NLP "
+TRUSTED = ["oracles fed to the model from the real code for each case: bm25IDF values (math.Log), the cleaned lower-cased words of the query (the analysis itself is computed by Model/Nlp.v from them and compared) and per-document NLP "
            "multipliers, the TF-IDF tokenizer output and math.Log table (the ranking itself is computed by Model/Tfidf.v and compared), raw sahilm/fuzzy scores", "correspondence harness", "PrimFloat = Go float64 on amd64 (no FMA fusion)"]
 ASSUMPTIONS = ["platform tags are ASCII (EqualFold modelled by ASCII folding)"]
 coq_case = ec.cecase
